@@ -30,7 +30,7 @@ TIMEOUT = {"quick": 600, "thorough": 3000}
 
 
 class PostBroken(Exception):
-    pass
+    _vmon_target = True  # a broken contract is a verdict about the code under test, also when it fires inside a ladim run
 
 
 _st: dict[str, Any] = dict(installed=False, n=dict(s_stretch=0, sdepth=0, z2s=0))
